@@ -720,7 +720,7 @@ pub fn gen_base(rng: &mut Rng, p: &Profile, st: &mut GenState) -> ModuleSpec {
         } else if r < 3 && total_funcs > 0 && !st.used_gother.contains(&(VT::FuncRef, mutable, "ref.func".into())) {
             st.used_gother.push((VT::FuncRef, mutable, "ref.func".into()));
             let f = rng.below(total_funcs as usize) as u32;
-            declared.push(f);
+            // (a global initialiser declares f, but the global can be deleted: not relied upon)
             (VT::FuncRef, ConstE::RefFunc(f))
         } else {
             let mut pool = vec![VT::I32, VT::I64, VT::F32, VT::F64];
@@ -741,7 +741,7 @@ pub fn gen_base(rng: &mut Rng, p: &Profile, st: &mut GenState) -> ModuleSpec {
                     kind: ExtKind::Func,
                     index: f,
                 });
-                declared.push(f);
+                // (an export declares f, but exports can be deleted: not relied upon)
             }
         }
         for g in 0..m.num_globals() {
@@ -980,9 +980,6 @@ pub fn ctx_of_model(m: &Model, p: &Profile) -> RefCtx {
     }
     // declared: alive functions exported / in elems / in global inits
     let mut d = vec![];
-    for e in m.exports.iter().filter(|e| !e.deleted && e.kind == ExtKind::Func) {
-        d.push(e.index);
-    }
     for e in &m.elems {
         match &e.items {
             ElemItems::Funcs(v) => d.extend(v.iter().copied()),
@@ -1021,6 +1018,9 @@ fn site_candidates(l: &MLocal, mode: Mode, misapplied: bool) -> Vec<u32> {
         // never touch the fingerprint prefix of the function
         let is_magic = matches!(mi.ins, Ins::I64Const(x) if x >= FUNC_MAGIC_BASE && x < FUNC_MAGIC_BASE + 0x1_0000_0000)
             || (i > 0 && matches!(l.body[i - 1].ins, Ins::I64Const(x) if x >= FUNC_MAGIC_BASE && x < FUNC_MAGIC_BASE + 0x1_0000_0000));
+        if is_magic && !matches!(mode, Mode::FuncEntry | Mode::FuncExit) {
+            continue; // the fingerprint pair stays contiguous
+        }
         let ok = match mode {
             Mode::Before => true,
             Mode::After => !last,
@@ -1431,6 +1431,55 @@ impl OpGen<'_> {
                         Some(i) => *i,
                         None => continue,
                     };
+                    // block-alternate regions are exclusive: nothing else is placed on or inside a
+                    // region that is replaced, and a region that already carries instrumentation is
+                    // not replaced (the property fixes no lowering for those combinations)
+                    let mut regions: Vec<(usize, usize)> = (0..l.body.len())
+                        .filter(|i| l.body[*i].block_alt.is_some())
+                        .filter_map(|i| block_region(&l.body, i))
+                        .collect();
+                    let mut instrumented: Vec<usize> = (0..l.body.len())
+                        .filter(|i| {
+                            let b = &l.body[*i];
+                            !b.before.ins.is_empty() || !b.after.ins.is_empty() || b.alternate.is_some() || b.has_special()
+                        })
+                        .collect();
+                    for s in sites.iter() {
+                        let s: &Site = s;
+                        if matches!(s.mode, Mode::BlockAlt | Mode::EmptyBlockAlt) {
+                            if let Some(r) = block_region(&l.body, s.instr as usize) {
+                                regions.push(r);
+                            }
+                        }
+                        instrumented.push(s.instr as usize);
+                    }
+                    let i = instr as usize;
+                    if matches!(mode, Mode::BlockAlt | Mode::EmptyBlockAlt) && l.body[i].ins.is_block_style() {
+                        let (a, b) = match block_region(&l.body, i) {
+                            Some(r) => r,
+                            None => continue,
+                        };
+                        // the closing `end` of an `else` region belongs to the `if`: keep it free too
+                        let b2 = if matches!(l.body[i].ins, Ins::Else) { b + 1 } else { b };
+                        if regions.iter().any(|(x, y)| !(b2 < *x || *y < a))
+                            || instrumented.iter().any(|k| *k >= a && *k <= b2)
+                            || (mode == Mode::EmptyBlockAlt && matches!(l.body[i].ins, Ins::If(_)))
+                        {
+                            continue;
+                        }
+                        // an `else` region lies inside an `if` region: the if must not be replaced
+                    } else if regions.iter().any(|(x, y)| i >= *x && i <= *y + 1) {
+                        continue;
+                    }
+                    // a type-preserving replacement repeats the instruction, so an instruction
+                    // other than `nop` gets at most one alternate
+                    if mode == Mode::Alternate
+                        && !matches!(l.body[instr as usize].ins, Ins::Nop)
+                        && (l.body[instr as usize].alternate.is_some()
+                            || sites.iter().any(|s: &Site| s.instr == instr && s.mode == Mode::Alternate))
+                    {
+                        continue;
+                    }
                     let (body, magic) = if matches!(mode, Mode::EmptyAlternate | Mode::EmptyBlockAlt) {
                         (vec![], 0)
                     } else {
@@ -1444,6 +1493,10 @@ impl OpGen<'_> {
                             control_flow: false,
                         };
                         let mut b = cg.probe(magic);
+                        if mode == Mode::BlockAlt && matches!(l.body[instr as usize].ins, Ins::If(_)) {
+                            // the replacement of an `if` construct consumes its condition
+                            b.insert(0, Ins::Drop);
+                        }
                         if mode == Mode::Alternate && !matches!(l.body[instr as usize].ins, Ins::Nop) {
                             // type-preserving replacement: the probe followed by the instruction itself
                             b.push(l.body[instr as usize].ins.clone());
